@@ -193,10 +193,10 @@ func c06skip(c *core.Ctx) {
 								return opt, true
 							case strings.HasSuffix(f, "IsNullableNode"):
 								return nul, true
-							case f == recv+".check" && len(y.Args) >= 1:
+							case f == recv+"."+c.P.CurrentName(recPkg+"check") && len(y.Args) >= 1:
 								idx := e.expr(y.Args[0])
 								return int64(cl.failMask>>uint(idx)) & 1, true
-							case f == recv+".checkMixedValueNode":
+							case f == recv+"."+c.P.CurrentName(recPkg+"checkMixedValueNode"):
 								return cl.mixedErr, true
 							case strings.HasSuffix(f, ".Children") && len(y.Args) == 0:
 								return int64(cl.children), true
@@ -273,7 +273,7 @@ func c06skip(c *core.Ctx) {
 						switch {
 						case strings.HasSuffix(f, ".GetTypes"):
 							return int64(n), true
-						case f == recv+".checkType" && len(y.Args) >= 1:
+						case f == recv+"."+c.P.CurrentName(recPkg+"checkType") && len(y.Args) >= 1:
 							idx := e.expr(y.Args[0])
 							called[idx] = true
 							return int64(mask>>uint(idx)) & 1, true
